@@ -272,7 +272,7 @@ def one_fault(m, hist, idx, f):
             fails.append({'clause': 'C15.silent_acceptance', 'signature': name, 'case': case,
                           'detail': {'fault': name, 'history': case['history']}})
         return 0, fails
-    if type(got) is not exc_type:
+    if not isinstance(got, exc_type):      # a more specific subclass of the documented type is the documented type
         fails.append({'clause': 'C15.error_type', 'signature': name, 'case': case,
                       'detail': {'fault': name, 'got': repr(got), 'expected': exc_type.__name__}})
     m.dh.table = table0
